@@ -9,8 +9,8 @@ args = sys.argv[1:]
 jobs = 3
 if args[:1] == ['-j']:
     jobs = int(args[1]); args = args[2:]
-ids = args or sorted((d for d in os.listdir(os.path.join(V, 'seeded')) if os.path.isdir(os.path.join(V, 'seeded', d))),
-                     key=lambda d: (d.split('_')[1], d))   # neighbours in the queue belong to different properties
+ids = sorted(args or (d for d in os.listdir(os.path.join(V, 'seeded')) if os.path.isdir(os.path.join(V, 'seeded', d))),
+             key=lambda d: (d.split('_')[1], d))   # neighbours in the queue belong to different properties
 
 
 def sh(cmd, **kw):
